@@ -63,12 +63,12 @@ struct C16 : vf::Engine {
             else if (w < 16) o = vf::mkop("setq").set("seed", (long)(r.next() >> 16));
             else if (w < 21) o = vf::mkop("setq1").set("i", (int)r.below(32));
             else if (w < 29) o = vf::mkop("setu").set("seed", (long)(r.next() >> 16));
-            else if (w < 43) o = vf::mkop("param").set("e", (int)r.below(ne)).setr("f", r.pick(std::vector<double>{1.5, 2.0, 3.0, 0.4})).set("which", (int)r.below(2));
+            else if (w < 43) o = vf::mkop("param").set("e", (int)r.below(ne)).setr("f", r.pick(std::vector<double>{1.5, 2.0, 3.0, 0.4, 0.0})).set("which", (int)r.below(3));
             else if (w < 50) o = vf::mkop("enable").set("e", (int)r.below(ne)).set("on", (int)r.below(2));
             else if (w < 52) o = vf::mkop("cenable").set("c", (int)r.below(3)).set("on", (int)r.below(2));
             else if (w < 54) o = vf::mkop("menable").set("c", (int)r.below(3)).set("on", (int)r.below(2));
             else if (w < 59) o = vf::mkop("lock").set("b", (int)r.below(nb)).set("level", (int)r.below(4));
-            else if (w < 65) o = vf::mkop("grav").set("what", (int)r.below(4)).set("b", (int)r.below(nb)).setr("v", r.uni(0, 20));
+            else if (w < 65) o = vf::mkop("grav").set("what", (int)r.below(4)).set("b", (int)r.below(nb)).setr("v", r.chance(0.3) ? 0.0 : r.uni(0, 20));   // exactly zero gravity is a special case in Force::Gravity
             else if (w < 68) o = vf::mkop("euler").set("on", (int)r.below(2));
             else if (w < 82) o = vf::mkop("realize").set("stage", r.range(4, 8));
             else if (w < 90) o = vf::mkop("query").set("what", (int)r.below(5)).set("b", (int)r.below(nb)).set("e", (int)r.below(ne));
@@ -120,9 +120,9 @@ struct C16 : vf::Engine {
                 auto anyBody = [&]() -> MobilizedBody& { return S.mob[1 + er.below(nb)]; };
                 auto rv = [&]() { return Vec3(er.uni(-1, 1), er.uni(-1, 1), er.uni(-1, 1)); };
                 if (e.kind == "mls") e.f = Force::MobilityLinearSpring(S.forces, anyBody(), MobilizerQIndex(0), er.uni(5, 50), er.uni(-1, 1));
-                else if (e.kind == "mld") e.f = Force::MobilityLinearDamper(S.forces, anyBody(), MobilizerUIndex(0), er.uni(0.5, 10));
+                else if (e.kind == "mld") e.f = Force::MobilityLinearDamper(S.forces, anyBody(), MobilizerUIndex(0), er.chance(0.15) ? 0.0 : er.uni(0.5, 10));
                 else if (e.kind == "mcf") e.f = Force::MobilityConstantForce(S.forces, anyBody(), MobilizerUIndex(0), er.uni(2, 20));
-                else if (e.kind == "stop") e.f = Force::MobilityLinearStop(S.forces, anyBody(), MobilizerQIndex(0), er.uni(50, 500), er.uni(0.1, 1), -0.3, 0.3);
+                else if (e.kind == "stop") e.f = Force::MobilityLinearStop(S.forces, anyBody(), MobilizerQIndex(0), er.uni(50, 500), er.chance(0.4) ? 0.0 : er.uni(0.1, 1), -0.3, 0.3);   // a purely elastic stop (dissipation exactly 0) is a natural special case
                 else if (e.kind == "tpls") { MobilizedBody& a = anyBody(); e.f = Force::TwoPointLinearSpring(S.forces, a, rv(), S.mob[er.below(nb + 1)], rv() + Vec3(3, 0, 0), er.uni(1, 50), er.uni(0, 1)); }
                 else if (e.kind == "tpld") { MobilizedBody& a = anyBody(); e.f = Force::TwoPointLinearDamper(S.forces, a, rv(), S.mob[er.below(nb + 1)], rv() + Vec3(3, 0, 0), er.uni(0.5, 10)); }
                 else if (e.kind == "cf") e.f = Force::ConstantForce(S.forces, anyBody(), rv(), 10 * rv());
@@ -251,11 +251,12 @@ struct C16 : vf::Engine {
                 else if (op.kind == "setu") { Rng r((uint64_t)op.num("seed", 1)); Vector u(nu); for (int i = 0; i < nu; ++i) u[i] = r.uni(-2, 2); s.updU() = u; modified("u"); }
                 else if (op.kind == "param") {
                     if (!S.elems.empty()) { Elem& e = S.elems[op.num("e", 0) % S.elems.size()]; double f = op.real("f", 2); int which = (int)op.num("which", 0); bool did = true;
-                        if (e.kind == "mls") { auto& x = Force::MobilityLinearSpring::downcast(e.f); if (which) x.setQZero(s, x.getQZero(s) + 0.4 * f); else x.setStiffness(s, x.getStiffness(s) * f); modified(which ? "parameter MobilityLinearSpring.qzero" : "parameter MobilityLinearSpring.stiffness"); }
-                        else if (e.kind == "mld") { auto& x = Force::MobilityLinearDamper::downcast(e.f); x.setDamping(s, x.getDamping(s) * f); modified("parameter MobilityLinearDamper.damping"); }
-                        else if (e.kind == "mcf") { auto& x = Force::MobilityConstantForce::downcast(e.f); x.setForce(s, x.getForce(s) * f); modified("parameter MobilityConstantForce.force"); }
-                        else if (e.kind == "stop") { auto& x = Force::MobilityLinearStop::downcast(e.f); if (which) x.setBounds(s, x.getLowerBound(s) - 0.1 * f, x.getUpperBound(s) - 0.05 * f); else x.setMaterialProperties(s, x.getStiffness(s) * f, x.getDissipation(s)); modified(which ? "parameter MobilityLinearStop.bounds" : "parameter MobilityLinearStop.stiffness"); }
-                        else if (e.h) { e.h->setParam(s, e.h->getParam(s) * f); modified(e.h->posOnly ? "parameter custom-position-only" : "parameter custom-velocity-dependent"); }
+                        auto scaled = [f](double cur) { return f == 0 ? 0.0 : cur == 0 ? f : cur * f; };   // factor 0 sets the parameter to exactly zero; from zero a factor is taken as the new value
+                        if (e.kind == "mls") { auto& x = Force::MobilityLinearSpring::downcast(e.f); if (which % 2) x.setQZero(s, x.getQZero(s) + 0.4 * f + 0.1); else x.setStiffness(s, scaled(x.getStiffness(s))); modified(which % 2 ? "parameter MobilityLinearSpring.qzero" : "parameter MobilityLinearSpring.stiffness"); }
+                        else if (e.kind == "mld") { auto& x = Force::MobilityLinearDamper::downcast(e.f); x.setDamping(s, scaled(x.getDamping(s))); modified("parameter MobilityLinearDamper.damping"); }
+                        else if (e.kind == "mcf") { auto& x = Force::MobilityConstantForce::downcast(e.f); x.setForce(s, scaled(x.getForce(s))); modified("parameter MobilityConstantForce.force"); }
+                        else if (e.kind == "stop") { auto& x = Force::MobilityLinearStop::downcast(e.f); if (which == 1) x.setBounds(s, x.getLowerBound(s) - 0.1 * f - 0.03, x.getUpperBound(s) - 0.05 * f - 0.02); else if (which == 2) x.setMaterialProperties(s, x.getStiffness(s), scaled(x.getDissipation(s))); else x.setMaterialProperties(s, f == 0 ? x.getStiffness(s) * 2 : x.getStiffness(s) * f, x.getDissipation(s)); modified(which == 1 ? "parameter MobilityLinearStop.bounds" : which == 2 ? "parameter MobilityLinearStop.dissipation" : "parameter MobilityLinearStop.stiffness"); }
+                        else if (e.h) { e.h->setParam(s, scaled(e.h->getParam(s))); modified(e.h->posOnly ? "parameter custom-position-only" : "parameter custom-velocity-dependent"); }
                         else did = false;
                         if (did && before >= Stage::Dynamics) ++probeParamAfterRealize; }
                 }
